@@ -499,7 +499,8 @@ Record request := {
   q_qargs : list (bytes * bytes);         (* URL.Query(): the first value of every key *)
   q_osenv : list (bytes * bytes);         (* process environment (the names the generator uses) *)
   q_host_hp : option (bytes * bytes);     (* net.SplitHostPort(Host) *)
-  q_remote_hp : option (bytes * bytes) }. (* net.SplitHostPort(RemoteAddr) *)
+  q_remote_hp : option (bytes * bytes);   (* net.SplitHostPort(RemoteAddr) *)
+  q_tls : option (N * N) }.               (* r.TLS: (Version, CipherSuite); no client certificate *)
 Record server := { sv_name : bytes; sv_port : bytes; sv_software : bytes; sv_version : bytes }.
 
 Fixpoint last_index_rev (r : bytes) (c : N) (n : nat) : option nat :=
@@ -537,6 +538,35 @@ Definition split_at (cs : bool) (r : rule) (f : bytes) : res (bytes * bytes) :=
       do d <- slice f 0 cut; do pi <- slice_from f cut; Ok (d, pi)
   end.
 
+(* ---- TLS tables ---- *)
+Definition tbl_get (k : N) (t : list (N * bytes)) : option bytes :=
+  match find (fun kv => fst kv =? k) t with Some kv => Some (snd kv) | None => None end.
+(* fastcgi.tlsProtocolStringToMap (mod_ssl names; it has no entry for TLS 1.3) *)
+Definition SSL_PROTOCOLS : list (N * bytes) := [(769, bs "TLSv1"); (770, bs "TLSv1.1"); (771, bs "TLSv1.2")].
+(* caskettls.SupportedProtocols, by version *)
+Definition TLS_PROTOCOL_NAMES : list (N * bytes) :=
+  [(769, bs "tls1.0"); (770, bs "tls1.1"); (771, bs "tls1.2"); (772, bs "tls1.3")].
+(* caskettls.SupportedCiphersMap, by suite id (the ids are pairwise distinct, so the map's iteration
+   order does not matter) *)
+Definition TLS_CIPHER_NAMES : list (N * bytes) :=
+  [(49196, bs "ECDHE-ECDSA-AES256-GCM-SHA384"); (49200, bs "ECDHE-RSA-AES256-GCM-SHA384");
+   (49195, bs "ECDHE-ECDSA-AES128-GCM-SHA256"); (49199, bs "ECDHE-RSA-AES128-GCM-SHA256");
+   (52393, bs "ECDHE-ECDSA-WITH-CHACHA20-POLY1305"); (52392, bs "ECDHE-RSA-WITH-CHACHA20-POLY1305");
+   (49172, bs "ECDHE-RSA-AES256-CBC-SHA"); (49171, bs "ECDHE-RSA-AES128-CBC-SHA");
+   (49162, bs "ECDHE-ECDSA-AES256-CBC-SHA"); (49161, bs "ECDHE-ECDSA-AES128-CBC-SHA");
+   (53, bs "RSA-AES256-CBC-SHA"); (47, bs "RSA-AES128-CBC-SHA");
+   (49170, bs "ECDHE-RSA-3DES-EDE-CBC-SHA"); (10, bs "RSA-3DES-EDE-CBC-SHA")].
+
+(* "Some web apps rely on knowing HTTPS or not" *)
+Definition env_tls (q : request) : list (bytes * bytes) :=
+  match q_tls q with
+  | None => []
+  | Some (ver, cs) =>
+      [(bs "HTTPS", bs "on")] ++
+      match tbl_get ver SSL_PROTOCOLS with Some v => [(bs "SSL_PROTOCOL", v)] | None => [] end ++
+      match tbl_get cs TLS_CIPHER_NAMES with Some v => [(bs "SSL_CIPHER", v)] | None => [] end
+  end.
+
 Definition env_base (sv : server) (r : rule) (q : request) (docuri pathinfo : bytes) : list (bytes * bytes) :=
   let '(ip0, port) := match last_index (q_remote q) 58 with
                       | Some i => (firstn i (q_remote q), skipn (S i) (q_remote q))
@@ -556,7 +586,7 @@ Definition env_base (sv : server) (r : rule) (q : request) (docuri pathinfo : by
     (bs "REMOTE_IDENT", []);
     (bs "REMOTE_USER", q_user q);
     (bs "REQUEST_METHOD", q_method q);
-    (bs "REQUEST_SCHEME", bs "http");
+    (bs "REQUEST_SCHEME", match q_tls q with Some _ => bs "https" | None => bs "http" end);
     (bs "SERVER_NAME", sv_name sv);
     (bs "SERVER_PORT", sv_port sv);
     (bs "SERVER_PROTOCOL", q_proto q);
@@ -568,7 +598,8 @@ Definition env_base (sv : server) (r : rule) (q : request) (docuri pathinfo : by
     (bs "SCRIPT_FILENAME", fjoin (r_root r) script0);
     (bs "SCRIPT_NAME", path_join (q_prefix q) script0) ] ++
   (* PATH_TRANSLATED only when PATH_INFO is not empty *)
-  match pathinfo with [] => [] | _ => [(bs "PATH_TRANSLATED", fjoin (r_root r) pathinfo)] end.
+  match pathinfo with [] => [] | _ => [(bs "PATH_TRANSLATED", fjoin (r_root r) pathinfo)] end ++
+  env_tls q.
 
 (* "Add all HTTP headers to env variables" *)
 Definition hdr_pairs (q : request) : list (bytes * bytes) :=
@@ -602,17 +633,26 @@ Definition path_dir (p : bytes) : bytes :=
 Definition path_file (p : bytes) : bytes :=
   match last_index p SLASH with Some i => skipn (S i) p | None => p end.
 
-(* the part of getSubstitution's default vocabulary that depends on the request only (plain HTTP:
-   r.TLS == nil; rr == nil).  [empty] is the replacer's empty value.  Vocabulary entries that are
+(* the part of getSubstitution's default vocabulary that depends on the request only (rr == nil;
+   no client certificate).  [empty] is the replacer's empty value.  Vocabulary entries that are
    not listed ({when…}, {hostname}, {request}, {request_body}, the *_escaped ones) are outside the
    model: [cfg_judged] below keeps them out of the comparison. *)
+Definition TLS_CONN_KEYS : list bytes := map bs ["{tls_protocol}"; "{tls_cipher}"].
 Definition TLS_KEYS : list bytes :=
-  map bs ["{tls_protocol}"; "{tls_cipher}"; "{tls_client_escaped_cert}"; "{tls_client_fingerprint}";
+  map bs ["{tls_client_escaped_cert}"; "{tls_client_fingerprint}";
           "{tls_client_i_dn}"; "{tls_client_raw_cert}"; "{tls_client_s_dn}"; "{tls_client_serial}";
           "{tls_client_v_end}"; "{tls_client_v_remain}"; "{tls_client_v_start}"].
 Definition REC_KEYS : list bytes := map bs ["{status}"; "{size}"; "{latency}"; "{latency_ms}"].
 Definition cfg_defaults (empty : bytes) (q : request) : list (bytes * bytes) :=
-  [ (bs "{method}", q_method q); (bs "{scheme}", bs "http"); (bs "{host}", q_host q);
+  [ (bs "{method}", q_method q);
+    (bs "{scheme}", match q_tls q with Some _ => bs "https" | None => bs "http" end);
+    (bs "{tls_protocol}", match q_tls q with
+                          | Some vc => match tbl_get (fst vc) TLS_PROTOCOL_NAMES with Some n => n | None => bs "tls" end
+                          | None => empty end);
+    (bs "{tls_cipher}", match q_tls q with
+                        | Some vc => match tbl_get (snd vc) TLS_CIPHER_NAMES with Some n => n | None => bs "UNKNOWN" end
+                        | None => empty end);
+    (bs "{host}", q_host q);
     (bs "{hostonly}", match q_host_hp q with Some hp => fst hp | None => q_host q end);
     (bs "{path}", q_path q); (bs "{rewrite_path}", q_path q);
     (bs "{query}", q_query q); (bs "{fragment}", []); (bs "{proto}", q_proto q);
@@ -621,7 +661,10 @@ Definition cfg_defaults (empty : bytes) (q : request) : list (bytes * bytes) :=
     (bs "{uri}", q_requri q); (bs "{rewrite_uri}", q_requri q);
     (bs "{file}", path_file (q_path q)); (bs "{dir}", path_dir (q_path q));
     (bs "{request_id}", []); (bs "{mitm}", bs "unknown");
-    (bs "{server_port}", match q_host_hp q with Some hp => snd hp | None => bs "80" end) ] ++
+    (bs "{server_port}", match q_host_hp q with
+                         | Some hp => snd hp
+                         | None => match q_tls q with Some _ => bs "443" | None => bs "80" end
+                         end) ] ++
   map (fun k => (k, empty)) (REC_KEYS ++ TLS_KEYS).
 
 Definition cfg_renv (empty : bytes) (q : request) : C20_Model.renv :=
@@ -729,8 +772,12 @@ Definition hdrs_ok (obs : list (bytes * list bytes)) (fields : list (bytes * byt
                      negb (match snd kv with [] => true | _ => false end)) obs' &&
   forallb (fun f => mem (canon_mime (fst f)) (map fst obs')) fields'.
 
-Definition trim_nl (s : bytes) : bytes :=
-  match rev s with 10 :: r => rev r | _ => s end.
+(* strings.TrimSuffix(s, "\n") — one pass (List.rev is quadratic, the logged text can be long) *)
+Fixpoint trim_nl (s : bytes) : bytes :=
+  match s with
+  | [] => []
+  | c :: r => match r with [] => if c =? 10 then [] else [c] | _ => c :: trim_nl r end
+  end.
 
 (* the spec of the split, on the observed variables *)
 Definition split_ok (cs : bool) (split f docuri pathinfo : bytes) : bool :=
@@ -767,7 +814,9 @@ Definition env_spec (cs : bool) (sv : server) (r : rule) (q : request) (f : byte
                        "PATH_INFO"; "QUERY_STRING"; "REMOTE_ADDR"; "REMOTE_HOST"; "REMOTE_PORT"; "REMOTE_IDENT";
                        "REMOTE_USER"; "REQUEST_METHOD"; "REQUEST_SCHEME"; "SERVER_NAME"; "SERVER_PORT";
                        "SERVER_PROTOCOL"; "SERVER_SOFTWARE"; "DOCUMENT_ROOT"; "DOCUMENT_URI"; "HTTP_HOST";
-                       "REQUEST_URI"; "SCRIPT_FILENAME"; "SCRIPT_NAME"; "PATH_TRANSLATED"])) got &&
+                       "REQUEST_URI"; "SCRIPT_FILENAME"; "SCRIPT_NAME"; "PATH_TRANSLATED"]) ||
+                     (match q_tls q with Some _ => true | None => false end &&
+                      mem (fst kv) (map bs ["HTTPS"; "SSL_PROTOCOL"; "SSL_CIPHER"]))) got &&
   (* configured env entries (last one of a name wins) unless a header or the method variables override *)
   forallb (fun kv => mem (fst kv) hn || mem (fst kv) METHOD_VARS ||
                      match env_lookup (fst kv) (r_env r) with
@@ -800,7 +849,17 @@ Definition env_spec (cs : bool) (sv : server) (r : rule) (q : request) (f : byte
   (ov "REMOTE_HOST" || ov "REMOTE_ADDR" || beq (g "REMOTE_HOST") (g "REMOTE_ADDR")) &&
   (ov "REMOTE_USER" || beq (g "REMOTE_USER") (q_user q)) &&
   (ov "SERVER_SOFTWARE" || beq (g "SERVER_SOFTWARE") (sv_software sv ++ [SLASH] ++ sv_version sv)) &&
-  (ov "REQUEST_SCHEME" || beq (g "REQUEST_SCHEME") (bs "http")) &&
+  (ov "REQUEST_SCHEME" || beq (g "REQUEST_SCHEME") (match q_tls q with Some _ => bs "https" | None => bs "http" end)) &&
+  (* HTTPS=on exactly on TLS connections; the mod_ssl variables only there *)
+  (ov "HTTPS" || match q_tls q with Some _ => beq (g "HTTPS") (bs "on") | None => negb (has "HTTPS") end) &&
+  (ov "SSL_PROTOCOL" || match q_tls q, lookup (bs "SSL_PROTOCOL") got with
+                        | Some vc, Some v => opt_beq (Some v) (tbl_get (fst vc) SSL_PROTOCOLS)
+                        | None, Some _ => false
+                        | _, None => true end) &&
+  (ov "SSL_CIPHER" || match q_tls q, lookup (bs "SSL_CIPHER") got with
+                      | Some vc, Some v => opt_beq (Some v) (tbl_get (snd vc) TLS_CIPHER_NAMES)
+                      | None, Some _ => false
+                      | _, None => true end) &&
   (let ct := hdr_get (bs "Content-Type") (q_headers q) in
    beq ct [] || beq (g "CONTENT_TYPE") ct) &&
   (* a declared body length is announced as such *)
